@@ -14,12 +14,16 @@ def run(n):
     p = subprocess.run(["/verif/tools/seedtest.py", d + "/patch.diff"] + ids, stdout=subprocess.PIPE, stderr=subprocess.STDOUT, text=True)
     res = [l for l in p.stdout.splitlines() if ": exit=" in l]
     caught = [l.split(":")[0].strip() for l in res if "DETECTED" in l]
+    if not res:          # the patch no longer applies to /repo HEAD (a later fix: commit rewrote its lines): keep the filed result
+        return n, None, "%-8s patch does not apply to /repo HEAD any more (result kept as filed)" % n
     return n, caught, "%-8s %s" % (n, " ; ".join(res))
 RP = "/verif/seeded/RESULTS.json"
 results = json.load(open(RP)) if os.path.exists(RP) else {}
 with ThreadPoolExecutor(j) as ex:
     for n, caught, line in ex.map(run, names):
         print(line, flush=True)
+        if caught is None:
+            continue
         e = results.setdefault(n, {})
         e["caught_by"] = ", ".join(caught) if caught else "MISSED"
-json.dump(results, open(RP, "w"), indent=1, sort_keys=True)
+        json.dump(results, open(RP, "w"), indent=1, sort_keys=True)
